@@ -820,6 +820,9 @@ def real_deflate_histories(items):
             except zlib.error:
                 res.append('error')
                 break
+            except Exception as e:  # noqa -- anything else escaping decompress() kills the session loop instead of becoming a ProtocolError
+                res.append('exception:' + type(e).__name__)
+                break
         outs.append(res)
     return outs
 
@@ -1036,7 +1039,19 @@ def plain_history(rng, kind, w, tier):
         out = []
         for _ in range(rng.choice([2, 3, 5])):
             n = rng.choice([1, 2, 50, 300, 1000, 5000])
-            if rng.random() < 0.5:
+            r_ = rng.random()
+            if r_ < 0.2:
+                # incompressible data (zlib emits stored blocks) that CONTAINS the octets of the sync-flush tail 00 00 ff ff, also right
+                # at the start / end, and the 255-byte payload starting with ff (its stored-block header ends in ..ff 00 00 ff): removing
+                # "the tail" must mean the last four octets, not the first occurrence of the pattern
+                body = bytearray(rbytes(rng, max(n, 12)))
+                for _k in range(rng.choice([1, 2, 3])):
+                    pos = rng.choice([0, len(body) - 4, rng.randrange(0, len(body) - 3)])
+                    body[pos:pos + 4] = b'\x00\x00\xff\xff'
+                out.append(('binary', bytes(body)))
+                if rng.random() < 0.5:
+                    out.append(('binary', b'\xff' + rbytes(rng, 254)))
+            elif r_ < 0.6:
                 out.append(('binary', rbytes(rng, n)))
             else:
                 import gen_core
